@@ -582,6 +582,39 @@ theorem names_positional_iff_injective (key : Nat → String) :
     rw [enumInto_eq key hinj xs 0 [] (by intro p hp; cases hp)]
     simp [named_length]
 
+open SubgraphNames SubgraphNamesLemmas in
+/-- **The typed dummy that inference uses has the subgraph's signature** — for every key, every list of argument
+    types and every list of result types (any lengths): as many inputs as `subgraph` created arguments, typed
+    position by position; as many outputs as the callback returned Vars, typed position by position; one
+    `Identity` per output; the names within each family pairwise different. `makeDummy` is a function of these
+    types alone: the stored callback is no input of it (re-tracing is excluded by `no_callback_reachable`; this
+    says what inference gets *instead*). -/
+theorem dummy_subgraph_signature (key : String) (types resTys : List Ty) :
+    let d := dummyOfSubgraph key types resTys
+    d.inputs.map (·.2) = types ∧ d.outputs.map (·.2) = resTys ∧ d.valueInfos.map (·.2) = resTys
+      ∧ d.nodes.length = resTys.length
+      ∧ (∀ i, i < resTys.length → d.nodes[i]? = (d.valueInfos[i]?.bind fun vi => d.outputs[i]?.map fun o => (vi.1, o.1)))
+      ∧ (d.inputs.map (·.1)).Nodup ∧ (d.outputs.map (·.1)).Nodup ∧ (d.valueInfos.map (·.1)).Nodup := by
+  have ha : (enumDict "in" types).map (·.2) = types := by rw [enumDict_eq, named_values]
+  have hr : (enumResults "out" resTys).map (·.2) = resTys := (enum_results_positional "out" resTys).2.1
+  simp only [dummyOfSubgraph, makeDummy, ha, hr, named_values, named_keys, List.length_map, List.length_range,
+    Nat.zero_add, true_and]
+  refine ⟨?_, range_map_nodup _ (pyKey_inj _) _, range_map_nodup _ (pyKey_inj _) _, range_map_nodup _ (pyKey_inj _) _⟩
+  intro i hi
+  rw [named_getElem? _ _ 0 i hi, named_getElem? _ _ 0 i hi]
+  simp [hi]
+
+/-- Non-vacuity: the dummy of a Loop body with 3 arguments and 2 results. -/
+example :
+    SubgraphNames.dummyOfSubgraph "body" [Ty.tensor 7 (some [.n 1]), .tensor 9 (some [.n 1]), (f32 [2]).ty]
+        [Ty.tensor 9 (some [.n 1]), (f32 [2]).ty]
+      = ⟨"__dummy_body",
+         [("__dummy_input0", .tensor 7 (some [.n 1])), ("__dummy_input1", .tensor 9 (some [.n 1])), ("__dummy_input2", (f32 [2]).ty)],
+         [("__dummy_output0", .tensor 9 (some [.n 1])), ("__dummy_output1", (f32 [2]).ty)],
+         [("__dummy_outer_output0", .tensor 9 (some [.n 1])), ("__dummy_outer_output1", (f32 [2]).ty)],
+         [("__dummy_outer_output0", "__dummy_output0"), ("__dummy_outer_output1", "__dummy_output1")]⟩ := by
+  decide
+
 open SubgraphNames in
 /-- Why the dict order matters (the `enum_arguments`-sorted-by-name change of a held-out round): listing the
     entries in *name* order is positional up to 10 entries and wrong from the 11th on (`in10 < in2`). -/
